@@ -220,6 +220,7 @@ func (p *Prog) encodeFunctionIn(fn *ssa.Function, ct *Contract, workdir string) 
 		}
 	}
 	f := &Frame{e: e, fn: fn, safety: ct.Safety}
+	e.preRegisterGhosts(fn)
 	st := &State{heaps: map[string]Term{}, wm: sym("wm0", SRef)}
 	for _, pat := range e.tracked {
 		for _, kind := range []string{"called", "itercalled"} {
@@ -325,6 +326,57 @@ func (p *Prog) encodeFunctionIn(fn *ssa.Function, ct *Contract, workdir string) 
 	cov2 := &Obligation{Name: top + "#cover:returns", Kind: "cover", Goal: rg, CmdIdx: len(e.cmds), Cover: true, Props: ct.Props}
 	e.covers = append(e.covers, cov2)
 	return e
+}
+
+// preRegisterGhosts records the sorts of ret()/argof() ghosts of tracked callees from the static signatures of the
+// calls in fn, so that a clause can mention them on a path where the call has not happened (yet).
+func (e *Enc) preRegisterGhosts(fn *ssa.Function) {
+	if fn.Blocks == nil {
+		return
+	}
+	for _, b := range fn.Blocks {
+		for _, in := range b.Instrs {
+			var c *ssa.CallCommon
+			switch x := in.(type) {
+			case *ssa.Call:
+				c = x.Common()
+			case *ssa.Defer:
+				c = x.Common()
+			}
+			if c == nil {
+				continue
+			}
+			name := calleeName(c)
+			for _, pat0 := range e.tracked {
+				pat := pat0
+				if k := strings.LastIndex(pat0, "#"); k >= 0 {
+					pat = pat0[:k]
+				}
+				if !matchPattern(pat, name) {
+					continue
+				}
+				sig := c.Signature()
+				for i := 0; i < sig.Results().Len(); i++ {
+					gn := ghostName("ret", pat0, i)
+					if _, ok := e.ghostSorts[gn]; !ok {
+						e.ghostSorts[gn] = e.sortOf(sig.Results().At(i).Type())
+						e.ghostTypes[gn] = sig.Results().At(i).Type()
+					}
+				}
+				args := c.Args
+				if !c.IsInvoke() && sig.Recv() != nil && len(args) > 0 {
+					args = args[1:]
+				}
+				for i, a := range args {
+					gn := ghostName("arg", pat0, i)
+					if _, ok := e.ghostSorts[gn]; !ok {
+						e.ghostSorts[gn] = e.sortOf(a.Type())
+						e.ghostTypes[gn] = a.Type()
+					}
+				}
+			}
+		}
+	}
 }
 
 // frameObligations: everything that existed at entry and is not listed in modifies is unchanged.
